@@ -126,6 +126,39 @@ func ruleTracking(w *World, r *Report, rule string, wantScopedStore, wantTransie
 		r.Analysed(f)
 		finfo := f.Pkg.TypesInfo // helpers are in the same package
 		fl := w.FlowOf(f)
+		// a predicate helper around the assertion (asDisposable(x) (Disposable, bool)) answers what
+		// the assertion answered: it says "no" only where the assertion failed
+		if f != owner && f.Decl.Type.Results != nil {
+			rl := f.Decl.Type.Results.List
+			if last := rl[len(rl)-1]; exprStr(last.Type) == "bool" {
+				nsol := fl.Solve(Spec{Must: true, Edge: func(b *cfg.Block, i int, cond ast.Expr, in Facts) (gen, kill []string) {
+					if cond == nil {
+						return
+					}
+					c, neg := unparen(cond), false
+					if u, isU := c.(*ast.UnaryExpr); isU && u.Op == token.NOT {
+						c, neg = unparen(u.X), true
+					}
+					if okVars[objOf(finfo, c)] && ((i == 0) == neg) {
+						gen = append(gen, "assertion-failed")
+					}
+					return
+				}})
+				badRet := ""
+				for _, ex := range fl.Exits() {
+					if ex.Ret == nil || len(ex.Ret.Results) == 0 {
+						continue
+					}
+					lr := unparen(ex.Ret.Results[len(ex.Ret.Results)-1])
+					if id, isId := lr.(*ast.Ident); isId && id.Name == "false" && !nsol.AtExit(ex).Has("assertion-failed") {
+						badRet = w.Pos(ex.Pos)
+					}
+				}
+				r.Check(badRet == "", rule, owner.Name()+"#disposable-predicate", f.Decl.Pos(), true,
+					"the predicate around the Disposable assertion says no only where the assertion failed",
+					f.Name()+" answers \"not a Disposable\" at "+badRet+" although the assertion succeeded: an instance with a Close method (a zero-valued struct or number with a value receiver, for instance) is never tracked, so never closed")
+			}
+		}
 		// the answer of instance.(Disposable) is used as given: an assignment that overwrites it
 		// (`ok = false` for some lifetime, some scope) makes a Disposable look like none
 		overwritten := ""
